@@ -20,7 +20,7 @@ def run(idx, rep, tier):
     hydro = lambda m: "hydroelastic" in m
     mods = [m.name for m in idx.lib_modules() if not hydro(m.name)]
     frame.r_frame(idx, rep, fr_rets, modules=set(mods), floor=150)
-    frame.r_frame_contracts(idx, rep, fr_rets, ("support", "aabb", "distance", "utils"), floor=30, unknown_ceiling=30)
+    frame.r_frame_contracts(idx, rep, fr_rets, ("support", "aabb", "distance", "utils", "geometry"), floor=30, unknown_ceiling=30)
     dg = degree.r_degree(idx, rep, floor=150, face_arrays=degree.EPA_FACES)
     degree.r_return_degrees(idx, rep, dg)
     mink.r_mink(idx, rep, floor=30)
